@@ -234,6 +234,7 @@ func (st *Runtime) recover(err *error) {
 	st.scope = &scope{}
 	st.context = reflect.Value{}
 	st.content = nil
+	vt(st, "exec.end")
 	pool_State.Put(st)
 	if recovered := recover(); recovered != nil {
 		var ok bool
@@ -340,6 +341,7 @@ func (st *Runtime) executeLetList(set *SetNode) {
 func (st *Runtime) executeYieldBlock(block *BlockNode, blockParam, yieldParam *BlockParameterList, expression Expression, content *ListNode) {
 
 	needNewScope := len(blockParam.List) > 0 || len(yieldParam.List) > 0
+	vt(st, "yield.begin", block.Name)
 	if needNewScope {
 		st.newScope()
 		for i := 0; i < len(yieldParam.List); i++ {
@@ -369,6 +371,7 @@ func (st *Runtime) executeYieldBlock(block *BlockNode, blockParam, yieldParam *B
 		st.content = func(st *Runtime, expression Expression) {
 			outscope := st.scope
 			outcontent := st.content
+			vt(st, "content.begin")
 
 			st.scope = myscope
 			st.content = mycontent
@@ -384,6 +387,7 @@ func (st *Runtime) executeYieldBlock(block *BlockNode, blockParam, yieldParam *B
 
 			st.scope = outscope
 			st.content = outcontent
+			vt(st, "content.end")
 		}
 	}
 
@@ -400,10 +404,15 @@ func (st *Runtime) executeYieldBlock(block *BlockNode, blockParam, yieldParam *B
 	if needNewScope {
 		st.releaseScope()
 	}
+	vt(st, "yield.end")
 }
 
 func (st *Runtime) executeList(list *ListNode) (returnValue reflect.Value) {
 	inNewScope := false // to use just one scope for multiple actions with variable declarations
+	if verifOn {
+		vt(st, "list.begin")
+		defer func() { vt(st, "list.end") }()
+	}
 
 	// a nested list that executed no {{return}} must not clobber the value of an earlier one
 	returned := func(v reflect.Value) {
@@ -422,6 +431,7 @@ func (st *Runtime) executeList(list *ListNode) (returnValue reflect.Value) {
 			if err != nil {
 				node.error(err)
 			}
+			vt(st, "text", len(node.Text))
 		case NodeAction:
 			node := node.(*ActionNode)
 			if node.Set != nil {
@@ -438,6 +448,7 @@ func (st *Runtime) executeList(list *ListNode) (returnValue reflect.Value) {
 				} else {
 					st.executeSetList(node.Set)
 				}
+				vt(st, "assign", node.Set.Let)
 			}
 			if node.Pipe != nil {
 				v, safeWriter := st.evalPipelineExpression(node.Pipe)
@@ -449,11 +460,13 @@ func (st *Runtime) executeList(list *ListNode) (returnValue reflect.Value) {
 						if err != nil {
 							node.error(err)
 						}
+						vt(st, "render", "escaped")
 					}
 				}
 			}
 		case NodeIf:
 			node := node.(*IfNode)
+			vt(st, "if.begin")
 			var isLet bool
 			if node.Set != nil {
 				if node.Set.Let {
@@ -473,6 +486,7 @@ func (st *Runtime) executeList(list *ListNode) (returnValue reflect.Value) {
 			if isLet {
 				st.releaseScope()
 			}
+			vt(st, "if.end")
 		case NodeRange:
 			node := node.(*RangeNode)
 			var expression reflect.Value
@@ -483,6 +497,7 @@ func (st *Runtime) executeList(list *ListNode) (returnValue reflect.Value) {
 			valVarSlot := -1
 
 			context := st.context
+			vt(st, "range.begin")
 
 			if isSet {
 				if len(node.Set.Left) > 1 {
@@ -534,6 +549,7 @@ func (st *Runtime) executeList(list *ListNode) (returnValue reflect.Value) {
 					if valVarSlot < 0 {
 						st.context = rangeValue
 					}
+					vt(st, "range.iter")
 					returned(st.executeList(node.List))
 					indexValue, rangeValue, end = ranger.Range()
 				}
@@ -545,6 +561,7 @@ func (st *Runtime) executeList(list *ListNode) (returnValue reflect.Value) {
 			if isLet {
 				st.releaseScope()
 			}
+			vt(st, "range.end")
 		case NodeTry:
 			node := node.(*TryNode)
 			returned(st.executeTry(node))
@@ -574,6 +591,7 @@ func (st *Runtime) executeList(list *ListNode) (returnValue reflect.Value) {
 		case NodeReturn:
 			node := node.(*ReturnNode)
 			returnValue = st.evalPrimaryExpressionGroup(node.Value)
+			vt(st, "return", returnValue.IsValid())
 		}
 	}
 
@@ -584,18 +602,27 @@ func (st *Runtime) executeTry(try *TryNode) (returnValue reflect.Value) {
 	writer := st.Writer
 	scope, context, content := st.scope, st.context, st.content
 	buf := new(bytes.Buffer)
+	vt(st, "try.begin")
 
 	defer func() {
 		r := recover()
 
 		// copy buffered render output to writer only if no panic occured
 		if r == nil {
+			if verifOn {
+				vt(st, "try.commit", buf.Len())
+			}
 			io.Copy(writer, buf)
+			vt(st, "try.end")
 		} else {
 			// st.Writer is already set to its original value since the later defer ran first;
 			// scope, context and content are not: the panic skipped the restores of every
 			// if/range/yield it unwound
 			st.scope, st.context, st.content = scope, context, content
+			if verifOn {
+				vt(st, "try.catch", buf.Len(), try.Catch != nil)
+				defer func() { vt(st, "try.end") }()
+			}
 			if try.Catch != nil {
 				if try.Catch.Err != nil {
 					st.newScope()
@@ -638,6 +665,10 @@ func (st *Runtime) executeInclude(node *IncludeNode) (returnValue reflect.Value)
 	}
 
 	outer := st.scope
+	if verifOn {
+		vt(st, "include.begin", t.Name)
+		defer func() { vt(st, "include.end") }()
+	}
 	st.newScope()
 	defer func() { st.scope = outer }()
 
@@ -1297,6 +1328,7 @@ func (st *Runtime) evalSafeWriter(term reflect.Value, node *CommandNode, v ...re
 	for i := 0; i < len(node.Exprs); i++ {
 		fastprinter.PrintValue(sw, st.evalPrimaryExpressionGroup(node.Exprs[i]))
 	}
+	vt(st, "render", "safewriter")
 }
 
 func (st *Runtime) evalCommandPipeExpression(node *CommandNode, value reflect.Value) (reflect.Value, bool) {
